@@ -515,6 +515,15 @@ fn main() {
 }
 """)
 
+prog("runtime_array_pointer_param", """
+@group(0) @binding(0) var<storage, read_write> data: array<u32>;
+@group(0) @binding(1) var<storage, read_write> o: array<u32, 4>;
+fn get(p: ptr<storage, array<u32>, read_write>, i: u32) -> u32 { return (*p)[i]; }
+fn put(p: ptr<storage, array<u32>, read_write>, i: u32, v: u32) { (*p)[i] = v; }
+@compute @workgroup_size(1)
+fn main() { o[0] = get(&data, 0u); o[1] = get(&data, 2u); put(&data, 1u, 77u); o[2] = arrayLength(&data); }
+""", rt=4)
+
 # ---------------------------------------------------------------- bounds-check policies: hostile indices
 # Programs use the macros
 #   @LOAD{dst|array|index|length|zero}      dst = array[index]
